@@ -33,7 +33,7 @@ from ..engine.cfg import own_parts
 from ..engine.report import AnalysisError, Run
 from ..engine.resolver import Program, body_walk
 from ..engine.util import canon, canon_total, find_calls, method_call, u
-from ._c06_util import VALID_HINT, Flow, HelperCalls, indent_of, inline_all, is_validity_call, validity_name, lifted, names_eq, pruned, unawait, seg, spliced, src_patch, stmt_patch, truth_atom
+from ._c06_util import EVAL_CLS, resyncs_on_divergence, VALID_HINT, Flow, HelperCalls, indent_of, inline_all, is_validity_call, validity_name, lifted, names_eq, pruned, unawait, seg, spliced, src_patch, stmt_patch, truth_atom
 
 STEPS = "timeseries.formula_engine._formula_steps"
 MF = f"{STEPS}:MetricFetcher"
@@ -627,102 +627,6 @@ def check_sync(run: Run, prog: Program, rule: str = "C19.SYNC") -> None:
               "the first fallback sample is not fetched lazily", node=fn.node, file=fn.file, path=cfg.describe_path(wit))
 
 
-EVAL = "timeseries.formula_engine._formula_evaluator:FormulaEvaluator"
-
-
-def evaluator_resyncs(run: Run, prog: Program) -> tuple[bool, str]:
-    """Does the consumer re-align its inputs whenever they are out of step?  Decided on FormulaEvaluator.apply()
-    (private helpers read in, the synchronisation routine kept as a call), in the steady state (`_first_run` false),
-    for rounds whose fetched samples carry 2 and 3 distinct timestamps: no path reaches a `return` without passing
-    an awaited call of the synchronisation routine; with one distinct timestamp a return is reachable without it.
-    The "distinct timestamps" test is recognised as len(<set of .timestamp>) against a constant, any/all over a
-    (in)equality of .timestamp values, or min(..) against max(..) of .timestamp values."""
-    from ._c06_util import cmp_eval, first_run_sync_name, tri
-
-    raw = prog.func(f"{EVAL}.apply")
-    sync = first_run_sync_name(prog)
-    run.analysed(raw.qual)
-    fn = inline_all(prog, raw, stop={sync})
-    fl = Flow(prog, fn)
-    cfg = fl.cfg
-    sync_nodes = [nid for nid, c in fl.calls(lambda c: isinstance(c.func, ast.Attribute) and c.func.attr == sync and u(c.func.value) == "self")
-                  if isinstance(fl._parent.get(id(c)), ast.Await)]
-    if not sync_nodes:
-        raise AnalysisError(f"{raw.qual}: no awaited call of the synchronisation routine `{sync}`")
-    rets = fl.returns()
-    if not rets:
-        raise AnalysisError(f"{raw.qual}: no return")
-
-    def ts_elems(e: ast.AST) -> bool:
-        """a comprehension / generator whose element is `<x>.timestamp`"""
-        return isinstance(e, (ast.SetComp, ast.ListComp, ast.GeneratorExp)) and isinstance(e.elt, ast.Attribute) and e.elt.attr == "timestamp"
-
-    def ts_collection(f: Flow, e: ast.AST, nid: int, want_set: bool) -> bool:
-        if ts_elems(e) and (isinstance(e, ast.SetComp) or not want_set):
-            return True
-        org = f.origin(e, nid)
-        for q in org:
-            x = q.node if q.kind == "expr" else None
-            if isinstance(x, ast.SetComp) and ts_elems(x):
-                continue
-            if isinstance(x, ast.Call) and u(x.func) in ("set", "frozenset") and len(x.args) == 1 and (
-                    ts_elems(x.args[0]) or (q.nid is not None and ts_collection(q.flow, x.args[0], q.nid, False))):
-                continue
-            if not want_set and x is not None and ts_elems(x):
-                continue
-            return False
-        return bool(org)
-
-    def scene(distinct: int, f: Flow, depth: int = 0) -> Any:
-        def atom(e: ast.AST, nid: int) -> bool | None:
-            if isinstance(e, (ast.Name, ast.Attribute)):
-                o = f.origin(e, nid, through_helpers=False)
-                if o and all(x.kind == "expr" and u(x.node) == "self._first_run" for x in o):
-                    return False
-            if isinstance(e, ast.Compare) and len(e.ops) == 1:
-                a, b, op = e.left, e.comparators[0], e.ops[0]
-                for x, y, flip in ((a, b, False), (b, a, True)):
-                    if isinstance(x, ast.Call) and u(x.func) == "len" and len(x.args) == 1 and isinstance(y, ast.Constant) \
-                            and isinstance(y.value, int) and not isinstance(y.value, bool) and ts_collection(f, x.args[0], nid, True):
-                        return cmp_eval(op, y.value, distinct) if flip else cmp_eval(op, distinct, y.value)
-                    if isinstance(x, ast.Call) and isinstance(y, ast.Call) and u(x.func) == "min" and u(y.func) == "max" \
-                            and len(x.args) == 1 and len(y.args) == 1 and ts_collection(f, x.args[0], nid, False) \
-                            and ts_collection(f, y.args[0], nid, False):
-                        lo, hi = (0, 0) if distinct == 1 else (0, 1)
-                        return cmp_eval(op, hi, lo) if flip else cmp_eval(op, lo, hi)
-            if isinstance(e, ast.Call) and u(e.func) in ("any", "all") and len(e.args) == 1 and isinstance(e.args[0], (ast.GeneratorExp, ast.ListComp)):
-                c = e.args[0].elt
-                if isinstance(c, ast.Compare) and len(c.ops) == 1 and isinstance(c.ops[0], (ast.Eq, ast.NotEq)) and all(
-                        (isinstance(z, ast.Attribute) and z.attr == "timestamp") or isinstance(z, ast.Name) for z in (c.left, c.comparators[0])) and any(
-                        isinstance(z, ast.Attribute) and z.attr == "timestamp" for z in (c.left, c.comparators[0])) and not e.args[0].generators[0].ifs:
-                    differ_somewhere = distinct > 1
-                    if isinstance(c.ops[0], ast.NotEq):
-                        return differ_somewhere if u(e.func) == "any" else None
-                    return (not differ_somewhere) if u(e.func) == "all" else None
-            if isinstance(e, ast.Call) and depth < 3:
-                # a private predicate helper: decided when all of its returns agree
-                ch = f.child(e, nid)
-                if ch is not None and not ch.fn.is_async:
-                    inner = lifted(ch, scene(distinct, ch, depth + 1))
-                    verdicts = set()
-                    for r in ch.returns():
-                        v = ch.cfg.nodes[r].ast.value  # type: ignore[union-attr]
-                        verdicts.add(None if v is None else tri(v, lambda x, r=r: inner(x, r)))
-                    if len(verdicts) == 1:
-                        return verdicts.pop()
-            return None
-        return atom
-
-    normal = {d: pruned(cfg, lifted(fl, scene(d, fl))) for d in (1, 2, 3)}
-    for d in (2, 3):
-        w = cfg.path(cfg.entry, rets, avoid=sync_nodes, edge_ok=normal[d])
-        if w is not None:
-            return False, (f"in the steady state a round whose samples carry {d} different timestamps can be evaluated without "
-                           f"the synchronisation routine `{sync}` being awaited: " + " -> ".join(cfg.describe_path(w)[-6:]))
-    if cfg.path(cfg.entry, rets, avoid=sync_nodes, edge_ok=normal[1]) is None:
-        return False, "no steady-state path evaluates an aligned round without re-synchronising (the recognised test was not found)"
-    return True, f"{raw.qual}: a round whose samples carry different timestamps always awaits `{sync}` before it is evaluated"
-
 
 def check_esync(run: Run, prog: Program) -> None:
     """C19.ESYNC ("... taken from the sum of its fallback components *for the same timestamp*"): a sample of the
@@ -744,13 +648,13 @@ def check_esync(run: Run, prog: Program) -> None:
     fb = fn.params[1]
     # the synchronisation state, by role: what the synchronisation routine stores fallback samples in
     sfn = prog.func(f"{MF}.{sname}")
-    state = {t.attr for st in ast.walk(sfn.node) if isinstance(st, (ast.Assign, ast.AnnAssign))
-             for t in (st.targets if isinstance(st, ast.Assign) else [st.target])
-             if isinstance(t, ast.Attribute) and u(t.value) == "self" and st.value is not None
-             and any(isinstance(c, ast.Call) and isinstance(c.func, ast.Attribute) and c.func.attr in ("receive", "consume")
-                     for c in ast.walk(st.value))}
-    if not state:
-        raise AnalysisError(f"{sfn.qual}: the attribute that keeps the last fallback sample was not found")
+    cls = prog.cls(MF)
+    seen_fns = [sfn]
+    for c in find_calls(sfn.node, lambda c: isinstance(c.func, ast.Attribute) and u(c.func.value) == "self" and c.func.attr in cls.methods):
+        seen_fns.append(cls.methods[c.func.attr])  # type: ignore[union-attr]
+    # every attribute of the fetcher the synchronisation (or a private helper of it) stores
+    state = {t.attr for f_ in seen_fns for t in ast.walk(f_.node)
+             if isinstance(t, ast.Attribute) and isinstance(t.ctx, ast.Store) and u(t.value) == "self"}
 
     def is_fb(e: ast.AST, nid: int | None) -> bool:
         o = fl.origin(e, nid)
@@ -792,7 +696,8 @@ def check_esync(run: Run, prog: Program) -> None:
                 and d not in evidence and r not in evidence
             if unsync:
                 if resync is None:
-                    resync = evaluator_resyncs(run, prog)
+                    resync = resyncs_on_divergence(prog)
+                    run.analysed(f"{EVAL_CLS}.apply")
                 if resync[0]:
                     run.ok("C19.ESYNC", f"{MF}: the fallback's next sample is returned unsynchronised ({cond}), and the consumer "
                            f"re-aligns: {resync[1]}")
@@ -972,8 +877,25 @@ def build_controls(prog: Program) -> list[tuple[str, str, str, str, str]]:
         txt = seg(stt.module, c)
         add("tiny fallback receiver", FFM, stmt_patch(
             stt, c, lambda t, txt=txt, c=c: t.replace(txt, seg(stt.module, c.func) + "(max_size=1)", 1)), "C19.BUF")
+    # ESYNC: the consumer's re-alignment removed / weakened (the raw error-path return is then unsynchronised for good)
+    ap = prog.func(f"{EVAL_CLS}.apply")
+    ev_mod = EVAL_CLS.split(":")[0]
+    for t_ in (x for x in ast.walk(ap.node) if isinstance(x, ast.If) and isinstance(x.test, ast.BoolOp) and isinstance(x.test.op, ast.Or)
+               and any(u(v) == "self._first_run" for v in x.test.values)):
+        txt = seg(ap.module, t_.test)
+        add("inputs re-aligned on the first run only", ev_mod, src_patch(
+            ap.module, t_.test.lineno, t_.test.end_lineno or t_.test.lineno, lambda t, txt=txt: t.replace(txt, "self._first_run", 1)), "C19.ESYNC")
+        break
+    for m_ in prog.cls(EVAL_CLS).methods.values():
+        for c_ in (x for x in ast.walk(m_.node) if isinstance(x, ast.Compare) and len(x.ops) == 1 and isinstance(x.ops[0], ast.Gt)
+                   and isinstance(x.left, ast.Call) and u(x.left.func) == "len" and isinstance(x.comparators[0], ast.Constant)
+                   and x.comparators[0].value == 1):
+            txt = seg(m_.module, c_)
+            add("re-aligned only when three timestamps differ", ev_mod, src_patch(
+                m_.module, c_.lineno, c_.end_lineno or c_.lineno, lambda t, txt=txt: t.replace(txt, txt[:-1] + "2", 1)), "C19.ESYNC")
+            break
     if len(out) < 4:
-        raise AnalysisError(f"C19: only {len(out)} of 9 seeded controls could be derived from the source "
+        raise AnalysisError(f"C19: only {len(out)} of 11 seeded controls could be derived from the source "
                             f"({[o[0] for o in out]})")
     return out
 
